@@ -279,6 +279,22 @@ def run(R):
                     R.check(got == want, 'C11.R4', 'drift:client:%s:%s' % (sv['tag'], m), site(ci['body']),
                             'committed client method (%s) vs freshly generated %s: calls differ by %r; aggregates differ by %r' % (k, short(ref[('client', k)][1].path)[-60:], sorted(((got[0] - want[0]) + (want[0] - got[0])).items())[:6], sorted(((got[1] - want[1]) + (want[1] - got[1])).items())[:4]))
         R.floor('C11.R4', 'committed generated items compared', n, 8)
+        # the arm for a path that names no method is generated code too: a committed file whose fallback differs from what the generator
+        # writes today is a file that was not regenerated
+        refd = [sv['server'].get('default_body') for key, sv in sorted(services.items()) if key[0] == 'interop' and sv.get('server') and sv['server'].get('default_body') is not None]
+        if not refd:
+            raise CheckError('ANCHOR-MISSING: no freshly generated fallback arm found in the interop crate')
+        wantd = shape(refd[0], [sv for key, sv in services.items() if key[0] == 'interop'][0]['crate'])
+        nd = 0
+        for key, sv in sorted(services.items()):
+            if key[0] not in ('tonic_health', 'tonic_reflection') or not sv.get('server'):
+                continue
+            db = sv['server'].get('default_body')
+            nd += 1
+            gotd = shape(db, sv['crate']) if db is not None else None
+            R.check(gotd == wantd, 'C11.R4', 'drift:server:%s:fallback-arm' % sv['tag'], site(db) if db is not None else site(sv['server']['body']),
+                    'committed fallback arm vs freshly generated %s: calls differ by %r' % (short(refd[0].path)[-60:], sorted(((gotd[0] - wantd[0]) + (wantd[0] - gotd[0])).items())[:6] if gotd else 'no fallback arm found'))
+        R.floor('C11.R4', 'committed fallback arms compared', nd, 3)
 
     # ---------------------------------------------------------------- R5 bootstrap manifest
     R.describe('C11.R5', 'codegen/src/main.rs: every codegen(..) call names existing proto files / include dirs / output dirs, covers every .proto of those crates and accounts for every committed generated file; client and server generation is enabled exactly for the crates whose committed files contain generated services')
